@@ -229,10 +229,10 @@ def codecFor (kind : String) (params : List String) (ts : List String) : Option 
   | "int", [] => mk (pOf i64Of) ts (fun v => if (Value.int v).ok then some ((Value.int v).enc 0#16) else none) id rI Int.dec
   | "tags", [p] => (u16Of p).bind fun p =>
       mk pTags ts (Tags.marshal p) id rTags (Tags.dec p)
-        (fun t => t.all fun x => match x.value with | .mixed g => g.all RefLL.canonical | _ => true)
+        Tags.canonical
   | "mtags", [p] => (u16Of p).bind fun p => mk pTags ts (Tags.marshal p) id rTags (Tags.dec p)
   | "members", [p] => (u16Of p).bind fun p =>
-      mk pMembers ts (Members.marshal p) id rMembers (Members.dec p) (fun ms => ms.all fun m => m.type.toNat < 4)
+      mk pMembers ts (Members.marshal p) id rMembers (Members.dec p) (fun ms => ms.all Member.typeOk)
   | "agr", [p] => (u16Of p).bind fun p => mk pAGR ts (AreaGeomRefs.marshal p) id rAGR (AreaGeomRefs.dec p)
   | "agl", [] => mk pAGL ts AreaGeomLL.marshal id rAGL AreaGeomLL.dec
   | "agm", [p] => (u16Of p).bind fun p =>
@@ -240,7 +240,7 @@ def codecFor (kind : String) (params : List String) (ts : List String) : Option 
   | "pll", [] => mk pPLL ts PolygonLL.marshal id rPLL PolygonLL.dec
   | "geom", [p] => (u16Of p).bind fun p =>
       mk pGeom ts (fun g => if g.ok then some (g.enc p) else none) id rGeom (AreaGeometry.dec p)
-        (fun g => match g with | .mixed ps => ps.all PolygonMixed.canonical | _ => true)
+        AreaGeometry.canonical
   | "nss", [] => mk (pOf nssOf) ts (fun n => some n.enc) id rNss Namespaces.dec
   | "str", [] => mk (pOf parseHex) ts Str.marshal id renderHex Str.dec
   | "nsi", [] => mk (pOf nsiOf) ts (fun x => some x.enc) id rNSI NamespaceIndex.dec
@@ -249,23 +249,24 @@ def codecFor (kind : String) (params : List String) (ts : List String) : Option 
   | "area", [n] => (nssOf n).bind fun n =>
       mk (do let t ← pTags; let g ← pGeom; let r ← pRefs; pure (⟨t, g, r⟩ : Area)) ts (Area.marshal n) id
         (fun a => j [rTags a.tags, rGeom a.polygons, rRefs a.relations]) (Area.dec n)
-        (fun a => match a.polygons with | .mixed ps => ps.all PolygonMixed.canonical | _ => true)
+        (fun a => Tags.canonical a.tags && a.polygons.canonical)
   | "path", [n] => (nssOf n).bind fun n =>
       mk (do let t ← pTags; let a ← pRefs; let r ← pRefs; pure (⟨t, a, r⟩ : Path)) ts (Path.marshal n) Path.sorted
-        (fun p => j [rTags p.tags, rRefs p.areas, rRefs p.relations]) (Path.dec n)
+        (fun p => j [rTags p.tags, rRefs p.areas, rRefs p.relations]) (Path.dec n) (fun p => Tags.canonical p.tags)
   | "cpoint", [n] => (nssOf n).bind fun n =>
       mk (do let t ← pTags; let r ← pOf refOf; pure (⟨t, r⟩ : CommonPoint)) ts (CommonPoint.marshal n) id
-        (fun c => j [rTags c.tags, rRef c.path]) (CommonPoint.dec n)
+        (fun c => j [rTags c.tags, rRef c.path]) (CommonPoint.dec n) (fun c => Tags.canonical c.tags)
   | "prefs", [n] => (nssOf n).bind fun n =>
       mk (do let a ← pRefs; let b ← pRefs; pure (⟨a, b⟩ : PointReferences)) ts (PointReferences.marshal n)
         PointReferences.sorted (fun p => j [rRefs p.paths, rRefs p.relations]) (PointReferences.dec n)
   | "fpoint", [n] => (nssOf n).bind fun n =>
       mk (do let t ← pTags; let a ← pRefs; let b ← pRefs; pure (⟨t, ⟨a, b⟩⟩ : FullPoint)) ts (FullPoint.marshal n)
         FullPoint.sorted (fun p => j [rTags p.tags, rRefs p.refs.paths, rRefs p.refs.relations]) (FullPoint.dec n)
+        (fun p => Tags.canonical p.tags)
   | "relation", [t, n] => (i64Of t).bind fun t => (nssOf n).bind fun n =>
       mk (do let tg ← pTags; let m ← pMembers; let r ← pRefs; pure (⟨tg, m, r⟩ : Relation)) ts (Relation.marshal t n) id
         (fun r => j [rTags r.tags, rMembers r.members, rRefs r.relations]) (Relation.dec t n)
-        (fun r => r.members.all fun m => m.type.toNat < 4)
+        (fun r => Tags.canonical r.tags && r.members.all Member.typeOk)
   | "ints", [] =>
       -- `UnmarshalDeltaCodedInts(vs, n, buffer)` is given the count by its caller: the harness passes `len(v)`
       (parseAll pInts ts).map fun v =>
@@ -337,7 +338,7 @@ def step (_ : Unit) (op impl : String) : Unit × Verdict :=
               | none => s!"{renderHex mb} panic"
           if impl == "panic" then ((), if modelAnswer == "panic" then .ok else .diff modelAnswer) else
           match impl.splitOn " | " with
-          | [left] =>
+          | [_] =>
             -- `<hex> panic`: Unmarshal panicked on Marshal's own output — never acceptable inside the domain
             if c.inDomain then ((), .propfail "roundtrip") else ((), if impl == modelAnswer then .ok else .diff modelAnswer)
           | [left, decodedI] =>
